@@ -532,11 +532,16 @@ func main() {
 			// extracted into a fresh context, or on top of the very context it was injected from, or on top of a
 			// context that holds the same span context as a local one: the result is the remote one every time
 			base := context.Background()
-			switch r.Intn(4) {
+			switch r.Intn(5) {
 			case 0:
 				base = ctx
 			case 1:
 				base = trace.ContextWithSpanContext(context.Background(), sc.WithRemote(false))
+			case 2:
+				// an earlier extraction of the same span whose tracestate has been edited since (another member
+				// list under the same ids, flags and remote bit)
+				stale, _ := trace.ParseTraceState("stale=1,earlier=hop")
+				base = trace.ContextWithSpanContext(context.Background(), sc.WithRemote(true).WithTraceState(stale))
 			}
 			out := prop.Extract(base, carrier)
 			got := trace.SpanContextFromContext(out)
